@@ -88,9 +88,9 @@ func Fill(t *Type, p sms.PDU, v *Values) {
 			}
 		case "fixed", "bin", "cstr", "body":
 			b := x.([]byte)
-			if f.Repr != "" { // hex representation in the struct
+			if f.Repr != "" && !(v.Raw[f.Spec] && len(b) == f.W) { // hex representation in the struct
 				b = []byte(hex.EncodeToString(b))
-			}
+			} // else: the raw octets themselves, which the encoders accept as well
 			if fv.Kind() == reflect.String {
 				fv.SetString(string(b))
 			} else {
@@ -187,6 +187,8 @@ func Extract(t *Type, p sms.PDU) *Values {
 			if f.Repr != "" {
 				if isLowerHex(string(b), 2*f.W) {
 					b, _ = hex.DecodeString(string(b))
+				} else if len(b) == f.W {
+					// the raw form: the octets themselves
 				} else {
 					b = append([]byte("!not-the-hex-form:"), b...)
 				}
